@@ -822,7 +822,15 @@ def rule_tokens(ctx):
     C06.rule_R1_R2(R.Retag(ctx, "C06."))
 
 
+def rule_narrowing(ctx):
+    """R10: what is rendered is the measured value: every narrowing integer conversion in the TCP crate is proven (or reviewed) to fit"""
+    from . import _narrow as N
+    n = N.narrowing_preserved(ctx, ctx.program, "R10", ("huginn_net_tcp",))
+    ctx.floor("R10", "narrowing integer conversions in the TCP crate", n, 10)
+
+
 def run(ctx):
+    rule_narrowing(ctx)
     rule_R8(ctx)
     rule_mtu_label(ctx)
     rule_tokens(ctx)
